@@ -126,11 +126,11 @@ func (p *Proof) IsValid(public Public) bool {
 	}
 
 	N := public.N.Big()
-	if big.Jacobi(p.W, N) != -1 {
+	if !arith.IsValidBigModN(N, p.W) {
 		return false
 	}
 
-	if !arith.IsValidBigModN(N, p.W) {
+	if big.Jacobi(p.W, N) != -1 {
 		return false
 	}
 	for _, r := range p.Responses {
@@ -235,11 +235,9 @@ func (p *Proof) Verify(public Public, hash *hash.Hash, pl *pool.Pool) bool {
 		return false
 	}
 
-	if big.Jacobi(p.W, n) != -1 {
-		return false
-	}
-
-	if !arith.IsValidBigModN(n, p.W) {
+	// W and every response must be present and in range before they are used: the responses are checked on the
+	// workers of the pool, where a nil value would take down the whole process.
+	if !p.IsValid(public) {
 		return false
 	}
 
